@@ -17,6 +17,7 @@ import (
 	"math/rand"
 	"net"
 	"os"
+	"regexp"
 	"runtime"
 	"sort"
 	"strconv"
@@ -24,8 +25,11 @@ import (
 	"testing"
 
 	"github.com/go-kit/log"
+	metallbv1beta1 "go.universe.tf/metallb/api/v1beta1"
+	metallbv1beta2 "go.universe.tf/metallb/api/v1beta2"
 	"go.universe.tf/metallb/internal/bgp"
 	"go.universe.tf/metallb/internal/config"
+	"go.universe.tf/metallb/internal/k8s/controllers"
 	"go.universe.tf/metallb/internal/speakerlist"
 	kit "go.universe.tf/metallb/internal/verifkit"
 	v1 "k8s.io/api/core/v1"
@@ -65,6 +69,31 @@ type vIn struct {
 	View  *vView  `json:"view"`
 	Base  *vView  `json:"base"`
 	Pert  *vView  `json:"pert"`
+	// kind seq: views evaluated one after the other on long-lived controllers; inputs with the
+	// same chunk number share the controllers (one history), in input order
+	Views []*vView `json:"views"`
+	Chunk int      `json:"chunk"`
+	// kind cfg: the configuration as custom resources
+	Cfg *vCfg `json:"cfg"`
+}
+
+type vAdvSpec struct {
+	Pools []string `json:"pools"`
+	Psel  string   `json:"psel"`
+	Nsel  []string `json:"nsel"`
+}
+
+type vCfg struct {
+	Zones map[string]string `json:"zones"`
+	Advs  []vAdvSpec        `json:"advs"`
+}
+
+// what the whole controllers of all nodes announce after one view of a sequence
+type vSeqObs struct {
+	L2     map[string][]string `json:"l2"`     // service -> nodes with announced[layer2]
+	Bgp    map[string][]string `json:"bgp"`    // service -> nodes with announced[bgp]
+	Routes map[string]int      `json:"routes"` // node -> advertisements on its live sessions
+	Resync map[string]int      `json:"resync"` // node -> number of full re-syncs the node's controller asked for
 }
 
 // decisions of one view for one address pair: service shape -> arrangement -> announcing nodes
@@ -78,6 +107,10 @@ type vOut struct {
 	Bgp  map[string][]string   `json:"bgp,omitempty"`  // kind bgp: node -> arrangement -> returned reason
 	E2E  map[string][]string   `json:"e2e,omitempty"`  // protocol -> nodes whose whole controller announces
 	Rts  map[string]int        `json:"routes,omitempty"`
+	Seq  []vSeqObs             `json:"seq,omitempty"`  // kind seq: one per view
+	CL2  *[]string             `json:"cl2,omitempty"`  // kind cfg: nodes whose layer-2 controller announces [v4]
+	CBgp map[string]string     `json:"cbgp,omitempty"` // kind cfg: node -> reason returned by the BGP controller
+	CErr string                `json:"cfgerr,omitempty"`
 	Err  string                `json:"err,omitempty"`
 }
 
@@ -139,6 +172,48 @@ func (vClient) UpdateStatus(*v1.Service) error                      { return nil
 func (vClient) Infof(*v1.Service, string, string, ...interface{})  {}
 func (vClient) Errorf(*v1.Service, string, string, ...interface{}) {}
 
+var vNoIfaces = regexp.MustCompile(".*")
+
+// vNewCtl builds a real speaker controller for one node.  The layer-2 announcer is told to
+// ignore every local interface (no raw sockets); the BGP session manager records.
+func vNewCtl(node string, ign bool) *vCtl {
+	sl := &vFakeSL{}
+	c, err := newController(controllerConfig{
+		MyNode:                 node,
+		Logger:                 log.NewNopLogger(),
+		SList:                  sl,
+		bgpType:                bgpNative,
+		IgnoreExcludeLB:        ign,
+		InterfaceExcludeRegexp: vNoIfaces,
+		Layer2StatusChange:     func(types.NamespacedName) {},
+		BGPAdsChangedCallback:  func(string) {},
+	})
+	if err != nil {
+		panic("newController: " + err.Error())
+	}
+	c.client = vClient{}
+	return &vCtl{c: c, sl: sl}
+}
+
+func (vc *vCtl) mgr() *vSessions {
+	return vc.c.protocolHandlers[config.BGP].(*bgpController).sessionManager.(*vSessions)
+}
+
+func (vc *vCtl) routes() int {
+	m := vc.mgr()
+	cnt := 0
+	m.mu.Lock()
+	for _, s := range m.sess {
+		if !s.dead {
+			s.mu.Lock()
+			cnt += len(s.ads)
+			s.mu.Unlock()
+		}
+	}
+	m.mu.Unlock()
+	return cnt
+}
+
 func vController(node string, ign bool, tag string) *vCtl {
 	key := node + "|" + strconv.FormatBool(ign) + "|" + tag
 	vCtlMu.Lock()
@@ -146,31 +221,10 @@ func vController(node string, ign bool, tag string) *vCtl {
 	if c, ok := vCtls[key]; ok {
 		return c
 	}
-	sl := &vFakeSL{}
-	mgr := &vSessions{}
-	saved := newBGP
-	newBGP = func(controllerConfig) bgp.SessionManager { return mgr }
-	c, err := newController(controllerConfig{
-		MyNode:                node,
-		Logger:                log.NewNopLogger(),
-		SList:                 sl,
-		bgpType:               bgpNative,
-		IgnoreExcludeLB:       ign,
-		Layer2StatusChange:    func(types.NamespacedName) {},
-		BGPAdsChangedCallback: func(string) {},
-	})
-	newBGP = saved
-	if err != nil {
-		panic("newController: " + err.Error())
-	}
-	c.client = vClient{}
-	vc := &vCtl{c: c, sl: sl}
+	vc := vNewCtl(node, ign)
 	vCtls[key] = vc
-	vMgrs[key] = mgr
 	return vc
 }
-
-var vMgrs = map[string]*vSessions{}
 
 // ---------------------------------------------------------------- concretisation
 
@@ -419,7 +473,7 @@ var vE2EMu sync.Mutex
 // vE2E drives the complete speaker controller of every node (SetConfig, node events, SetBalancer)
 // and reports which nodes ended up announcing per protocol, and the number of routes handed to
 // the BGP sessions.
-func vE2E(v *vView, pair []int) (map[string][]string, map[string]int) {
+func vE2E(v *vView, pair []int, parsed *config.Config) (map[string][]string, map[string]int) {
 	vE2EMu.Lock()
 	defer vE2EMu.Unlock()
 	names := vNodeNames(v)
@@ -429,16 +483,13 @@ func vE2E(v *vView, pair []int) (map[string][]string, map[string]int) {
 	routes := map[string]int{}
 	ips := []net.IP{kit.IP(pair[0])}
 	for _, n := range names {
-		key := n + "|" + strconv.FormatBool(v.Ign) + "|e2e"
 		vc := vController(n, v.Ign, "e2e")
-		mgr := vMgrs[key]
 		c := vc.c
 		// forget whatever the previous view left behind
 		c.SetBalancer(l, "ns1/svc", nil, nil)
-		pool := vPool(v, 0, rnd)
-		cfg := &config.Config{
-			Pools: &config.Pools{ByName: map[string]*config.Pool{"pool1": pool}},
-			Peers: map[string]*config.Peer{"peer1": {Name: "peer1", Addr: net.ParseIP("10.9.9.9"), ASN: 64512, MyASN: 64513}},
+		cfg := parsed
+		if cfg == nil {
+			cfg = vConfig(v, 0, rnd)
 		}
 		c.nodes = map[string]*v1.Node{}
 		vc.sl.nodes = vSpeakers(v)
@@ -454,19 +505,241 @@ func vE2E(v *vView, pair []int) (map[string][]string, map[string]int) {
 		if c.announced[config.BGP]["ns1/svc"] {
 			ann["bgp"] = append(ann["bgp"], n)
 		}
-		cnt := 0
-		mgr.mu.Lock()
-		for _, s := range mgr.sess {
-			if !s.dead {
-				s.mu.Lock()
-				cnt += len(s.ads)
-				s.mu.Unlock()
-			}
-		}
-		mgr.mu.Unlock()
-		routes[n] = cnt
+		routes[n] = vc.routes()
 	}
 	return ann, routes
+}
+
+func vConfig(v *vView, p int, rnd *rand.Rand) *config.Config {
+	return &config.Config{
+		Pools: &config.Pools{ByName: map[string]*config.Pool{"pool1": vPool(v, p, rnd)}},
+		Peers: map[string]*config.Peer{"peer1": {Name: "peer1", Addr: net.ParseIP("10.9.9.9"), ASN: 64512, MyASN: 64513}},
+	}
+}
+
+// ---------------------------------------------------------------- sequences on long-lived controllers
+
+// vHistory is one set of real controllers (one per node name) living through a chunk of sequences.
+// Every view is reached from the previous one with the calls the running speaker would see:
+// SetConfig only when the advertisements changed, SetNode for every Node object that changed,
+// a full re-sync of the Services when a handler returned ReprocessAll or the memberlist changed
+// (that is what the reconcilers / ForceSync do), SetBalancer for a Service whose endpoints or
+// spec changed.
+type vHistory struct {
+	ctl    map[string]*vCtl
+	cur    *vView
+	resync map[string]int
+}
+
+var vSeqSvcs = []string{"svcA", "svcB"}
+
+func vSeqIPs(name string, pairs [][]int) []net.IP {
+	if name == "svcA" {
+		return []net.IP{kit.IP(pairs[0][0])}
+	}
+	return []net.IP{kit.IP(pairs[len(pairs)-1][1])}
+}
+
+func vJSONEq(a, b interface{}) bool {
+	x, _ := json.Marshal(a)
+	y, _ := json.Marshal(b)
+	return string(x) == string(y)
+}
+
+func (h *vHistory) apply(v *vView, pairs [][]int) vSeqObs {
+	l := log.NewNopLogger()
+	names := vNodeNames(v)
+	rnd := rand.New(rand.NewSource(1))
+	cur := h.cur
+	for _, n := range names {
+		if h.ctl[n] == nil {
+			h.ctl[n] = vNewCtl(n, v.Ign)
+		}
+	}
+	nodeObjs := vNodes(v, 0, rnd)
+	eps := vSlices(v, 0, rnd)
+	svcs := map[string]*v1.Service{}
+	for _, s := range vSeqSvcs {
+		svcs[s] = vService(s, v, vSeqIPs(s, pairs))
+	}
+	for _, me := range names {
+		vc := h.ctl[me]
+		c := vc.c
+		all := func() {
+			h.resync[me]++
+			for _, s := range vSeqSvcs {
+				c.SetBalancer(l, "ns1/"+s, svcs[s], eps)
+			}
+		}
+		// configuration event
+		if cur == nil || !vJSONEq(cur.Advs, v.Advs) {
+			if c.SetConfig(l, vConfig(v, 0, rnd)) == controllers.SyncStateReprocessAll && cur != nil {
+				all()
+			}
+		}
+		// memberlist event: the speaker forces a re-sync
+		oldSp, newSp := map[string]bool(nil), vSpeakers(v)
+		if cur != nil {
+			oldSp = vSpeakers(cur)
+		}
+		vc.sl.nodes = newSp
+		if cur != nil && !vJSONEq(oldSp, newSp) {
+			all()
+		}
+		// node events, through the real SetNode; re-sync only if it asks for one
+		for _, n := range names {
+			if cur != nil && cur.Nodes[n] == v.Nodes[n] {
+				continue
+			}
+			if nodeObjs[n] == nil {
+				continue
+			}
+			if c.SetNode(l, nodeObjs[n]) == controllers.SyncStateReprocessAll {
+				all()
+			}
+		}
+		// service / endpoint-slice events
+		if cur == nil || cur.Etp != v.Etp || !vJSONEq(cur.Eps, v.Eps) {
+			for _, s := range vSeqSvcs {
+				c.SetBalancer(l, "ns1/"+s, svcs[s], eps)
+			}
+		}
+	}
+	h.cur = v
+	o := vSeqObs{L2: map[string][]string{}, Bgp: map[string][]string{}, Routes: map[string]int{}, Resync: map[string]int{}}
+	for _, s := range vSeqSvcs {
+		o.L2[s] = []string{}
+		o.Bgp[s] = []string{}
+		for _, n := range names {
+			if h.ctl[n].c.announced[config.Layer2]["ns1/"+s] {
+				o.L2[s] = append(o.L2[s], n)
+			}
+			if h.ctl[n].c.announced[config.BGP]["ns1/"+s] {
+				o.Bgp[s] = append(o.Bgp[s], n)
+			}
+		}
+	}
+	for _, n := range names {
+		o.Routes[n] = h.ctl[n].routes()
+		o.Resync[n] = h.resync[n]
+	}
+	return o
+}
+
+// vChunk runs the sequences of one chunk, in order, on one history per ignore-flag value.
+func vChunk(raws [][]byte) [][]byte {
+	hist := map[bool]*vHistory{}
+	outs := make([][]byte, len(raws))
+	for i, raw := range raws {
+		out := vOut{In: append(json.RawMessage{}, raw...)}
+		func() {
+			defer func() {
+				if r := recover(); r != nil {
+					out.Err = fmt.Sprint("panic: ", r)
+				}
+			}()
+			var in vIn
+			kit.Must(json.Unmarshal(raw, &in))
+			for _, v := range in.Views {
+				h := hist[v.Ign]
+				if h == nil {
+					h = &vHistory{ctl: map[string]*vCtl{}, resync: map[string]int{}}
+					hist[v.Ign] = h
+				}
+				out.Seq = append(out.Seq, h.apply(v, in.Pairs))
+			}
+		}()
+		b, err := json.Marshal(out)
+		if err != nil {
+			panic(err)
+		}
+		outs[i] = b
+	}
+	return outs
+}
+
+// ---------------------------------------------------------------- configuration through config.For
+
+func vSel(key string, vals []string) []metav1.LabelSelector {
+	out := []metav1.LabelSelector{}
+	for _, x := range vals {
+		out = append(out, metav1.LabelSelector{MatchLabels: map[string]string{key: x}})
+	}
+	return out
+}
+
+// vParse renders the abstract configuration as custom resources and has the real config.For
+// parse it: two pools (p1 holds the Service addresses), BGP and L2 advertisements with pool
+// names, pool selectors and node selectors, one peer, the Node objects with their zone label.
+func vParse(v *vView, cf *vCfg) (*config.Config, map[string]*v1.Node, error) {
+	rnd := rand.New(rand.NewSource(1))
+	nodes := vNodes(v, 0, rnd)
+	res := config.ClusterResources{}
+	for _, n := range vNodeNames(v) {
+		if nodes[n] == nil {
+			continue
+		}
+		nodes[n].Labels["zone"] = cf.Zones[n]
+		res.Nodes = append(res.Nodes, *nodes[n])
+	}
+	res.Pools = []metallbv1beta1.IPAddressPool{
+		{ObjectMeta: metav1.ObjectMeta{Name: "p1", Namespace: "metallb-system", Labels: map[string]string{"tier": "gold"}},
+			Spec: metallbv1beta1.IPAddressPoolSpec{Addresses: []string{"192.168.0.0/16", "fc00::/16"}}},
+		{ObjectMeta: metav1.ObjectMeta{Name: "p2", Namespace: "metallb-system", Labels: map[string]string{"tier": "silver"}},
+			Spec: metallbv1beta1.IPAddressPoolSpec{Addresses: []string{"10.99.0.0/24"}}},
+	}
+	res.Peers = []metallbv1beta2.BGPPeer{{ObjectMeta: metav1.ObjectMeta{Name: "peer1", Namespace: "metallb-system"},
+		Spec: metallbv1beta2.BGPPeerSpec{MyASN: 64513, ASN: 64512, Address: "10.9.9.9"}}}
+	for i, a := range cf.Advs {
+		meta := metav1.ObjectMeta{Name: "adv" + strconv.Itoa(i+1), Namespace: "metallb-system"}
+		var psel []metav1.LabelSelector
+		if a.Psel != "" {
+			psel = vSel("tier", []string{a.Psel})
+		}
+		var nsel []metav1.LabelSelector
+		if len(a.Nsel) > 0 {
+			nsel = vSel("zone", a.Nsel)
+		}
+		pools := append([]string{}, a.Pools...)
+		res.BGPAdvs = append(res.BGPAdvs, metallbv1beta1.BGPAdvertisement{ObjectMeta: meta,
+			Spec: metallbv1beta1.BGPAdvertisementSpec{IPAddressPools: pools, IPAddressPoolSelectors: psel, NodeSelectors: nsel}})
+		res.L2Advs = append(res.L2Advs, metallbv1beta1.L2Advertisement{ObjectMeta: meta,
+			Spec: metallbv1beta1.L2AdvertisementSpec{IPAddressPools: pools, IPAddressPoolSelectors: psel, NodeSelectors: nsel}})
+	}
+	cfg, err := config.For(res, config.DontValidate)
+	return cfg, nodes, err
+}
+
+func vCfgKind(in *vIn, out *vOut) {
+	v := in.View
+	cfg, nodes, err := vParse(v, in.Cfg)
+	if err != nil {
+		out.CErr = err.Error()
+		return
+	}
+	l := log.NewNopLogger()
+	rnd := rand.New(rand.NewSource(1))
+	eps := vSlices(v, 0, rnd)
+	ips := []net.IP{kit.IP(in.Pairs[0][0])}
+	svc := vService("svc", v, ips)
+	pool := cfg.Pools.ByName[poolFor(cfg.Pools, ips)]
+	cl2 := []string{}
+	out.CL2 = &cl2
+	out.CBgp = map[string]string{}
+	for _, n := range vNodeNames(v) {
+		if pool == nil {
+			out.CBgp[n] = "noPool"
+			continue
+		}
+		base := vController(n, v.Ign, "fn").c
+		l2 := *(base.protocolHandlers[config.Layer2].(*layer2Controller))
+		l2.sList = &vFakeSL{nodes: vSpeakers(v)}
+		if l2.ShouldAnnounce(l, "ns1/svc", ips, pool, svc, eps, nodes) == "" {
+			cl2 = append(cl2, n)
+		}
+		out.CBgp[n] = base.protocolHandlers[config.BGP].ShouldAnnounce(l, "ns1/svc", ips, pool, svc, eps, nodes)
+	}
+	out.E2E, out.Rts = vE2E(v, in.Pairs[0], cfg)
 }
 
 // ---------------------------------------------------------------- driver
@@ -488,11 +761,14 @@ func vHandle(raw []byte) (out vOut) {
 		out.DecP = vL2(in.ID+"p", in.Pert, in.Pairs)
 	case "bgp":
 		out.Bgp = vBGP(in.ID, in.View)
+	case "cfg":
+		vCfgKind(&in, &out)
+		return out
 	default:
 		panic("unknown kind " + in.Kind)
 	}
 	if in.E2E && in.View != nil {
-		out.E2E, out.Rts = vE2E(in.View, in.Pairs[0])
+		out.E2E, out.Rts = vE2E(in.View, in.Pairs[0], nil)
 	}
 	return out
 }
@@ -511,29 +787,66 @@ func TestVerifElect(t *testing.T) {
 			lines = append(lines, append([]byte{}, sc.Bytes()...))
 		}
 	}
+	// every controller built below gets its own recording BGP session manager
+	newBGP = func(controllerConfig) bgp.SessionManager { return &vSessions{} }
 	res := make([][]byte, len(lines))
 	par := runtime.GOMAXPROCS(0)
 	if v := os.Getenv("VERIF_PAR"); v != "" {
 		par, _ = strconv.Atoi(v)
 	}
+	// work items: a single input, or all the sequences of one chunk (one history, in order)
+	var items [][]int
+	chunkItem := map[int]int{}
+	for i, raw := range lines {
+		var head struct {
+			Kind  string `json:"kind"`
+			Chunk int    `json:"chunk"`
+		}
+		kit.Must(json.Unmarshal(raw, &head))
+		if head.Kind != "seq" {
+			items = append(items, []int{i})
+			continue
+		}
+		k, ok := chunkItem[head.Chunk]
+		if !ok {
+			k = len(items)
+			chunkItem[head.Chunk] = k
+			items = append(items, nil)
+		}
+		items[k] = append(items[k], i)
+	}
 	var wg sync.WaitGroup
-	ch := make(chan int, 1024)
+	ch := make(chan []int, 1024)
 	for w := 0; w < par; w++ {
 		wg.Add(1)
 		go func() {
 			defer wg.Done()
-			for i := range ch {
-				o := vHandle(lines[i])
+			for it := range ch {
+				var head struct {
+					Kind string `json:"kind"`
+				}
+				kit.Must(json.Unmarshal(lines[it[0]], &head))
+				if head.Kind == "seq" {
+					raws := make([][]byte, len(it))
+					for k, i := range it {
+						raws[k] = lines[i]
+					}
+					for k, b := range vChunk(raws) {
+						res[it[k]] = b
+					}
+					continue
+				}
+				o := vHandle(lines[it[0]])
 				b, err := json.Marshal(o)
 				if err != nil {
 					panic(err)
 				}
-				res[i] = b
+				res[it[0]] = b
 			}
 		}()
 	}
-	for i := range lines {
-		ch <- i
+	for _, it := range items {
+		ch <- it
 	}
 	close(ch)
 	wg.Wait()
